@@ -194,11 +194,17 @@ class Model:
         self._expand_classifiers()
 
     def _expand_classifiers(self) -> None:
-        from .expand import expand_function
+        from .expand import expand_function, inline_method_aliases
         for f in list(self.functions.values()):
             fn = f.node
             if not isinstance(fn, ast.FunctionDef):
                 continue
+            na = inline_method_aliases(fn)
+            if na:
+                self.expanded[f.qualname] = self.expanded.get(f.qualname, 0) + na
+                for p_ in ast.walk(fn):
+                    for ch in ast.iter_child_nodes(p_):
+                        ch._parent = p_  # type: ignore[attr-defined]
 
             def resolve(call: ast.Call, f: FuncInfo = f) -> t.Optional[t.Tuple[ast.FunctionDef, bool]]:
                 fx = call.func
@@ -229,7 +235,7 @@ class Model:
             except RecursionError:
                 n = 0
             if n:
-                self.expanded[f.qualname] = n
+                self.expanded[f.qualname] = self.expanded.get(f.qualname, 0) + n
                 for p_ in ast.walk(fn):
                     for ch in ast.iter_child_nodes(p_):
                         ch._parent = p_  # type: ignore[attr-defined]
